@@ -435,6 +435,11 @@ func c15Property(t *rapid.T, name string, ev *Collector, multiGet bool) {
 				if ok && !bytes.Equal(v, want) {
 					t.Fatalf("%s Get(%q)=%q, reader's snapshot has %q", name, k, v, want)
 				}
+				if ok && v == nil {
+					// "If the key does not exist, nil is returned": a present key, even with an
+					// empty value, is not nil
+					t.Fatalf("%s Get(%q)=nil (absent), but the reader's snapshot holds the key with the empty value", name, k)
+				}
 				if ok && st.lastMod[string(k)] > rd.version {
 					st.staleRead++
 				}
@@ -459,7 +464,7 @@ func c15Property(t *rapid.T, name string, ev *Collector, multiGet bool) {
 				}
 				for i, k := range keys {
 					want, ok := rd.snap[string(k)]
-					if !ok && vals[i] != nil || ok && !bytes.Equal(vals[i], want) {
+					if !ok && vals[i] != nil || ok && !bytes.Equal(vals[i], want) || ok && vals[i] == nil {
 						t.Fatalf("%s MultiGet(%q)[%d]=%q, snapshot has %q present=%v", name, keys, i, vals[i], want, ok)
 					}
 				}
